@@ -44,6 +44,30 @@ MUTANTS = [
     ("M05-maxsum-includes-recipient", "C05", "pydcop/algorithms/maxsum.py",
      "            if f == factor or f not in costs:",
      "            if f not in costs:"),
+    ("M15-pseudotree-link-swapped", "C15", "pydcop/computations_graph/pseudotree.py",
+     "        return PseudoTreeLink(r[\"type\"], from_repr(r[\"source\"]), from_repr(r[\"target\"]))",
+     "        return PseudoTreeLink(r[\"type\"], from_repr(r[\"target\"]), from_repr(r[\"source\"]))"),
+    ("M18-priority-ignored", "C18", "pydcop/infrastructure/communication.py",
+     "            self._queue.put((msg_type, count, now, full_msg))",
+     "            self._queue.put((MSG_ALGO, count, now, full_msg))"),
+    ("M18-shutdown-without-drain", "C18", "pydcop/infrastructure/agents.py",
+     "            while not self._stopping.is_set():",
+     "            while not self._stopping.is_set() and not self._shutdown.is_set():"),
+    ("M19-reinject-at-algo-priority", "C19", "pydcop/infrastructure/computations.py",
+     "                self._msg_sender(src, self.name, msg, 19)\n            self.logger.debug(\n                \"On resume, re-injecting",
+     "                self._msg_sender(src, self.name, msg, 20)\n            self.logger.debug(\n                \"On resume, re-injecting"),
+    ("M20-skip-registration-notification", "C20", "pydcop/infrastructure/discovery.py",
+     "        for interested in self._subscription_computations[computation]:\n            self.directory_computation.notify_computation_registered(",
+     "        for interested in list(self._subscription_computations[computation])[1:]:\n            self.directory_computation.notify_computation_registered("),
+    ("M22-stop-on-first-finished", "C22", "pydcop/infrastructure/orchestrator.py",
+     "        all_finished = all(s == 'finished'",
+     "        all_finished = any(s == 'finished'"),
+    ("M25-accept-on-footprint-only", "C25", "pydcop/replication/dist_ucs_hostingcosts.py",
+     "        if remaining_capacity >= max_footprint:",
+     "        if remaining_capacity >= footprint:"),
+    ("M27-always-activate-candidate", "C27", "pydcop/infrastructure/agents.py",
+     "        if repair_comp.computation.current_value == 1:",
+     "        if repair_comp.computation.current_value in (0, 1):"),
     ("M09-dba-no-counter-propagation", "C09", "pydcop/algorithms/dba.py",
      "        self._termination_counter = min(recv_msg.termination_counter,\n                                        self._termination_counter)",
      "        pass"),
